@@ -20,6 +20,8 @@ const (
 	Permanent = "permanent"
 	WrongType = "wrongtype"
 	Overrun   = "overrun" // wait for ctx.Done(), then return ok (late)
+	// WrongTypeErr returns a response of the wrong type together with a retryable error.
+	WrongTypeErr = "wrongtype_err"
 )
 
 // Step is the script of one invocation.
@@ -278,6 +280,8 @@ func (p *Plugin) Execute(ctx wctx.Context, req any) (any, *plugins.Error) {
 		return nil, &plugins.Error{Code: 9, Message: "P:" + tok, Permanent: true, Wrapped: &plugins.Error{Code: 3, Message: "inner:" + tok}}
 	case WrongType:
 		return WrongResp{Junk: tok}, nil
+	case WrongTypeErr:
+		return WrongResp{Junk: tok}, &plugins.Error{Code: 7, Message: "T:" + tok, Permanent: false}
 	}
 	return nil, &plugins.Error{Message: "bad script outcome " + st.Out, Permanent: true}
 }
